@@ -511,6 +511,21 @@ class C11(common.Prop):
                                                {"op": "get", "sel": ["pose_keypoints_2d"], "points": {"pose_keypoints_2d": ["RWrist", "Nose", "LEye"]}, "mal": "none"}])
                 case["kind"] = "openpose/2step"
             yield case
+        # a by-name selection that REORDERS the body component first (any point may end up at global index 0 - a leg point too),
+        # then the in-place helpers, which look points up by name in whatever order the header now has
+        for i in range(24 if quick else 600):
+            case = self.gen_shaped(rng, "openpose" if i % 2 == 0 else "holistic")
+            if case["be"] != "np" or not case["kind"].endswith("/full"):
+                continue
+            comps = case["pose"]["comps"]
+            body = comps[0]
+            pts = list(body["points"])
+            rng.shuffle(pts)
+            sel = [c["name"] for c in comps]
+            case["pre"] = [{"op": "get", "sel": sel, "points": {body["name"]: pts}, "mal": "none"}]
+            case["args"] = rng.choice([{"op": "hide"}, {"op": "hide"}, {"op": "wrists"}, {"op": "hide_remove"}])
+            case["kind"] = case["kind"].split("/")[0] + "/2step-reordered"
+            yield case
         for i in range(40 if quick else 1500):
             yield self.gen_shaped(rng, "openpose")
         for i in range(16 if quick else 400):
